@@ -1063,3 +1063,34 @@ package mqtt
 //@ requires x.root != nil && wfTrie() && nodesValid()
 //@ modifies allentries("string", "*particle"), allentries("int", "InlineSubscription")
 //@ ensures C31-inline-unsubscribe-reports-whether-the-subscription-existed: r0 ==> old(has(pathNode(filter, 0).inlineSubscriptions.internal, id))
+
+// ======================================================================================
+// Shared subscriptions: one member per share group (C06)
+// ======================================================================================
+// s.Shared: share filter ("$share/group/filter") -> member client -> subscription, as gathered from the matching nodes
+// SelectShared picks, for every group in turn, the first member the (random) map iteration yields and stops there.
+// verif:func mqtt.Subscribers.SelectShared
+//@ modifies s.SharedSelected, allentries("string", "int")
+//@ ensures C06-only-members-of-a-group-are-selected: forall c string :: has(s.SharedSelected, c) ==> (exists f string :: has(s.Shared, f) && has(s.Shared[f], c))
+//@ ensures C06-every-group-with-members-has-a-selected-member: forall f string, c0 string :: has(s.Shared, f) && has(s.Shared[f], c0) ==> (exists c string :: has(s.Shared[f], c) && has(s.SharedSelected, c))
+//@ ensures C06-at-most-one-member-per-group: len(s.SharedSelected) <= len(s.Shared)
+//@ ensures result-map-is-new: s.SharedSelected != nil && fresh(s.SharedSelected)
+// verif:loop mqtt.Subscribers.SelectShared 1
+//@ invariant selected-are-members: forall c string :: has(s.SharedSelected, c) ==> (exists f string :: has(s.Shared, f) && has(s.Shared[f], c))
+//@ invariant visited-groups-have-a-selected-member: forall f string, c0 string :: visited1[f] && has(s.Shared, f) && has(s.Shared[f], c0) ==> (exists c string :: has(s.Shared[f], c) && has(s.SharedSelected, c))
+//@ invariant at-most-one-per-visited-group: len(s.SharedSelected) <= nvisited1
+//@ invariant maps: s.SharedSelected != nil && fresh(s.SharedSelected) && s.Shared == old(s.Shared) && rangemap1 == s.Shared
+
+// every selected member joins the client subscriptions of this publish (merged with what the client already has there), so that a
+// client holding both kinds of subscription still gets one copy
+// verif:func mqtt.Subscribers.MergeSharedSelected
+//@ requires s.Subscriptions != nil && s.Subscriptions != s.SharedSelected
+//@ modifies entries(s.Subscriptions), allentries("string", "int")
+//@ ensures C06-every-selected-member-is-delivered-to: forall c string :: has(s.SharedSelected, c) ==> has(s.Subscriptions, c)
+//@ ensures C06-nobody-else-is-added: forall c string :: has(s.Subscriptions, c) ==> old(has(s.Subscriptions, c)) || has(s.SharedSelected, c)
+//@ ensures earlier-entries-kept: forall c string :: old(has(s.Subscriptions, c)) ==> has(s.Subscriptions, c)
+// verif:loop mqtt.Subscribers.MergeSharedSelected 1
+//@ invariant merged: forall c string :: visited1[c] && has(s.SharedSelected, c) ==> has(s.Subscriptions, c)
+//@ invariant nobody-else: forall c string :: has(s.Subscriptions, c) ==> old(has(s.Subscriptions, c)) || has(s.SharedSelected, c)
+//@ invariant kept: forall c string :: old(has(s.Subscriptions, c)) ==> has(s.Subscriptions, c)
+//@ invariant maps: s.Subscriptions == old(s.Subscriptions) && s.SharedSelected == old(s.SharedSelected) && s.Subscriptions != nil && s.Subscriptions != s.SharedSelected && rangemap1 == s.SharedSelected && (forall c string :: (has(s.SharedSelected, c) <==> old(has(s.SharedSelected, c))))
